@@ -9,14 +9,14 @@
         error_handling="continue"; raise mode surfaces the first failing item
      runners/async_/executors/interrupt_node.py  resume / handler / pause
    Recursion is on an explicit nesting-depth budget d; the harness passes d > actual depth. *)
-From HG Require Import Base Rename Engine Exec.
+From HG Require Import Base Rename Engine Exec GraphDef InputSpec.
 From stdpp Require Import gmap.
 
 Inductive map_mode := MZip | MProduct.
 Record mapcfg := mk_mapcfg { mc_over : list name; mc_mode : map_mode; mc_continue : bool }.
 
 Inductive ngraph :=
-| NG (g : graph) (sel : option (list name)) (ft : dict fexp) (gt : dict gate_cfg) (subs : list (name * nsub))
+| NG (g : graph) (sel : option (list name)) (eps : option (list name)) (ft : dict fexp) (gt : dict gate_cfg) (subs : list (name * nsub))
 with nsub :=
 | NSub (inner : ngraph) (hin hout : history) (cur_out : list name) (mc : option mapcfg).
 
@@ -153,7 +153,7 @@ Fixpoint exec_ng (d : nat) (r : runner) (ft : dict fexp) (gt : dict gate_cfg) (s
       | S d' =>
           match dget subs (n_name n) with
           | None => ORaise EUnsupported
-          | Some (NSub (NG ig isel ift igt isubs) hin hout cur_out mc) =>
+          | Some (NSub (NG ig isel _ ift igt isubs) hin hout cur_out mc) =>
               let inner_inputs := map_inputs_to_params hin ins in
               let run_inner := fun pv => fst (execute (exec_ng d' r ift igt isubs) r default_max_iterations ig pv) in
               match mc with
@@ -184,32 +184,40 @@ Fixpoint exec_ng (d : nat) (r : runner) (ft : dict fexp) (gt : dict gate_cfg) (s
 Definition run_ng (d : nat) (r : runner) (fuel : nat) (ng : ngraph) (pv : dict val) (sel_override : option (option (list name)))
   : result :=
   match ng with
-  | NG g sel ft gt subs =>
+  | NG g sel _ ft gt subs =>
       let eff := match sel_override with Some s => s | None => sel end in
       package g eff (execute (exec_ng d r ft gt subs) r fuel g pv)
   end.
 
 Definition run_pause (d : nat) (r : runner) (fuel : nat) (ng : ngraph) (pv : dict val) : option pause :=
   match ng with
-  | NG g sel ft gt subs =>
+  | NG g sel _ ft gt subs =>
       match fst (execute (exec_ng d r ft gt subs) r fuel g pv) with
       | RPaused p _ => Some p
       | _ => None
       end
   end.
 
+(* runner.map at top level: one packaged result per generated input combination *)
+Definition map_top (d : nat) (r : runner) (ng : ngraph) (pv : dict val) (over : list name) (mode : map_mode)
+  : err + list result :=
+  match generate_map_inputs pv over mode with
+  | inl e => inl e
+  | inr items => inr (map (fun it => run_ng d r default_max_iterations ng it None) items)
+  end.
+
 (* ---------------- the complete call log, nested calls included ---------------- *)
 
 Fixpoint calls_ng (d : nat) (r : runner) (fuel : nat) (ng : ngraph) (pv : dict val) {struct d} : list call :=
   match ng with
-  | NG g sel ft gt subs =>
+  | NG g sel _ ft gt subs =>
       let outer := concat (snd (execute (exec_ng d r ft gt subs) r fuel g pv)) in
       match d with
       | O => outer
       | S d' =>
           flat_map (fun c : call =>
-            c :: match dget subs (fst c) with
-                 | None => []
+                 match dget subs (fst c) with
+                 | None => [c]
                  | Some (NSub inner hin hout cur_out mc) =>
                      let inner_inputs := map_inputs_to_params hin (snd c) in
                      match mc with
@@ -233,3 +241,63 @@ Fixpoint calls_ng (d : nat) (r : runner) (fuel : nat) (ng : ngraph) (pv : dict v
                  end) outer
       end
   end.
+
+(* ---------------- building nested graphs: the interface of a GraphNode ---------------- *)
+
+Definition ng_graph (ng : ngraph) : graph := match ng with NG g _ _ _ _ _ => g end.
+Definition ng_sel (ng : ngraph) : option (list name) := match ng with NG _ s _ _ _ _ => s end.
+Definition ng_eps (ng : ngraph) : option (list name) := match ng with NG _ _ e _ _ _ => e end.
+
+(* Graph.inputs of a (nested) graph; its g_bound already holds the merged bindings *)
+Definition ng_spec (ng : ngraph) : ispec :=
+  input_spec (g_nodes (ng_graph ng)) (g_bound (ng_graph ng)) [] (ng_eps ng) (ng_sel ng).
+
+Definition current_names (orig : list name) (h : history) : list name :=
+  match run_history orig h with Some c => c | None => orig end.
+
+(* GraphNode.__init__ + with_inputs / with_outputs: name, inputs = inner.inputs.all, outputs =
+   inner.selected or inner.outputs, has_default_for / default value looked up through the renames *)
+Definition graphnode_of (nm : name) (inner : ngraph) (hin hout : history) : node :=
+  let inodes := g_nodes (ng_graph inner) in
+  let ibound := g_bound (ng_graph inner) in
+  let orig_in := is_all (ng_spec inner) in
+  let cur_in := current_names orig_in hin in
+  let orig_out := match ng_sel inner with Some s => s | None => graph_outputs (ng_graph inner) end in
+  let cur_out := current_names orig_out hout in
+  let users := fun o => List.filter (fun m => pos_in o (n_inputs m)) inodes in
+  let hasdef := List.filter (fun c => let o := gn_resolve_original hin c in
+                    dmem ibound o || existsb (fun m => pos_in o (n_hasdef m)) (users o)) cur_in in
+  let defval := flat_map (fun c => let o := gn_resolve_original hin c in
+                    match dget ibound o with
+                    | Some v => [(c, v)]
+                    | None =>
+                        match users o with
+                        | [] => []
+                        | m0 :: _ => if forallb (fun m => dmem (n_defval m) o) (users o)
+                                     then match dget (n_defval m0) o with Some v => [(c, v)] | None => [] end
+                                     else []
+                        end
+                    end) cur_in in
+  mk_node nm cur_in cur_out (length cur_out) [] hasdef defval KGraph 1%positive.
+
+(* input_spec._collect_bound_values: bindings of nested graphs, under the wrapper's current input names *)
+Definition nested_bound (nodes : list node) (subs : list (name * nsub)) : dict val :=
+  flat_map (fun kv =>
+    match snd kv with
+    | NSub inner hin _ _ _ =>
+        match List.find (fun n => Pos.eqb (n_name n) (fst kv)) nodes with
+        | Some n => flat_map (fun c => match dget (g_bound (ng_graph inner)) (gn_resolve_original hin c) with
+                                       | Some v => [(c, v)] | None => [] end) (n_inputs n)
+        | None => []
+        end
+    end) subs.
+
+Definition mk_ng (nodes : list node) (own_bound : dict val) (eps sel : option (list name))
+           (ft : dict fexp) (gt : dict gate_cfg) (subs : list (name * nsub)) : ngraph :=
+  let nb := List.filter (fun kv => negb (dmem own_bound (fst kv))) (nested_bound nodes subs) in
+  let merged := dupdate own_bound nb in
+  let active := match eps with Some e => Some (active_from_entrypoints nodes e) | None => None end in
+  NG (mk_graph nodes merged active) sel eps ft gt subs.
+
+Definition mk_sub (nm : name) (inner : ngraph) (hin hout : history) (mc : option mapcfg) : name * nsub :=
+  (nm, NSub inner hin hout (n_outputs (graphnode_of nm inner hin hout)) mc).
